@@ -27,6 +27,7 @@ mod c09;
 mod c10;
 mod c11;
 mod c12;
+mod c12live;
 mod c13;
 mod c14live;
 mod gen_wizard;
@@ -105,6 +106,7 @@ fn main() {
         "c02h3" => c02h3::run(&mut ctx),
         "c10h3" | "c01h3" => c10::run_h3(&mut ctx),
         "c05live" => c05live::run(&mut ctx),
+        "c12live" => c12live::run(&mut ctx),
         "c14est" => c10::run_establish(&mut ctx),
         "c14live" => c14live::run(&mut ctx),
         "c11" => c11::run(&mut ctx),
